@@ -128,7 +128,12 @@ def make_state_used(rng, kind, am, ph, warm, unitary_dict=None):
     st = make_state(kind, am0, ph0, unitary_dict=unitary_dict)
     warm(st)
     how = IDIOMS[int(rng.integers(0, len(IDIOMS)))]
-    set_params_idiom(st.rbm_am, am, how)
+    if rng.random() < 0.4:
+        # the public reset first (a model that was reinitialised before it got its present parameters: nothing about the
+        # network - its registered parameter order included - may differ from a freshly built one)
+        st.reinitialize_parameters()
+        how = "reinitialize+" + how
+    set_params_idiom(st.rbm_am, am, how.split("+")[-1])
     if ph is not None:
         set_params_idiom(st.rbm_ph, ph, IDIOMS[int(rng.integers(0, len(IDIOMS)))])
     return st, how
